@@ -475,7 +475,8 @@ template <class T> static void frames (int k)
         // 1 / |f0 + t0| (documented in ImathQuat.h: "nearly opposite" is the ill-conditioned case); on the fallback arm the result is the
         // exact half-turn from^ -> -from^ at distance |f0 + t0| <= 8 eps from to^ (theorem rotationMatrix_carries)
         L s2 = lenl (V{(L) f0.x + (L) t0.x, (L) f0.y + (L) t0.y, (L) f0.z + (L) t0.z});
-        L condO = cls == 12 ? std::max ((L) 1, 2 / std::max (s2, eps)) : 1;
+        // (only the split arm is conditioned by 1 / |f0 + t0|; the fallback arm must stay within 8 eps + rounding, unscaled)
+        L condO = (cls == 12 && std::string (arm) == "obtuse-split") ? std::max ((L) 1, 2 / std::max (s2, eps)) : 1;
         rec<T> ("rotationMatrix.from->to", PAIR[cls], distl (vecRow (nrml (vl (a)), toL (m, 4)), nrml (vl (b))) / condO, 32, in);
     }
     if (!degenerate)
